@@ -50,6 +50,20 @@ def while_bounds(test):
     return False
 
 
+def inserts_bounded(lp):
+    """Every insertion into the window inside the loop body is control-dependent on len(W) < self._window tested in the same
+    iteration (loop test or a guard with break/continue/return before the insertion)."""
+    seen = False
+    for bp in lp.a["body"]:
+        for r in bp.walk():
+            if r.kind == "REG" and r.a["reg"] == W:
+                seen = True
+                mine = r.conds[len(lp.conds):]
+                if not any(while_bounds(c.term if c.pol else ("not", c.term)) for c in mine):
+                    return False
+    return seen
+
+
 def find_refill_loops(events):
     out = []
     for e in events:
@@ -86,7 +100,7 @@ def check(ctx):
                 seen_loops[key] = lp
                 normal = [bp for bp in lp.a["body"] if bp.exit_kind() in ("fall", "continue")]
                 if lp.a["lkind"] == "while":
-                    ok = while_bounds(lp.a.get("test"))
+                    ok = while_bounds(lp.a.get("test")) or inserts_bounded(lp)
                     ctx.ob("W-BOUND", "%s refill loop re-tests len(window) < window size before every insertion (%s)" % (cq, tr.label()), ok,
                            where=where(lp), function=lp.func, construct="%s/refill/while-test" % lp.func,
                            msg="refill loop condition %s does not bound the window" % show(lp.a.get("test")))
@@ -159,7 +173,7 @@ def check(ctx):
                            function=all_un[0].func, construct="%s/%s/refill" % (all_un[0].func, tr.name),
                            msg="%s handler frees a slot without refilling the window from the queue" % tr.name)
         ctx.count("refill_loop_sites", len(seen_loops))
-    ctx.floor("refill loop instances over contexts", nloops, 6)
+    ctx.floor("refill loop instances over contexts", nloops, 2)
 
 
 def _is_free_slots(t):
